@@ -267,7 +267,7 @@ func (u *upstream) createClient(addr string) (*client, error) {
 	// start client
 	go func() {
 		c.Start()
-		u.removeClient(addr)
+		u.removeExitedClient(addr, c)
 	}()
 	u.addClientLocked(addr, c)
 	return c, nil
@@ -282,6 +282,17 @@ func (u *upstream) addClientLocked(addr string, c *client) {
 func (u *upstream) removeClient(addr string) {
 	u.clientsMu.Lock()
 	defer u.clientsMu.Unlock()
+	u.removeClientLocked(addr)
+}
+
+// removeExitedClient removes the client from the table unless the addr has
+// been taken over by a newer client (e.g. after all clients were reset).
+func (u *upstream) removeExitedClient(addr string, c *client) {
+	u.clientsMu.Lock()
+	defer u.clientsMu.Unlock()
+	if cur, ok := u.loadClients()[addr]; ok && cur != c {
+		return
+	}
 	u.removeClientLocked(addr)
 }
 
